@@ -9,6 +9,7 @@ import (
 	"context"
 	"fmt"
 	"os"
+	"strings"
 	"testing"
 	"time"
 
@@ -71,9 +72,13 @@ func TestCheck(t *testing.T) {
 		{name: "handshake-error", key: protocol.SaslHandshake, nth: 1, ans: "err:34"},
 		{name: "handshake-dropped", key: protocol.SaslHandshake, nth: 1, ans: "drop"},
 		{name: "auth1-error58", key: protocol.SaslAuthenticate, nth: 1, ans: "err:58"},
+		{name: "auth1-error-1", key: protocol.SaslAuthenticate, nth: 1, ans: "err:-1"},
+		{name: "auth1-error34", key: protocol.SaslAuthenticate, nth: 1, ans: "err:34"},
+		{name: "auth1-error13", key: protocol.SaslAuthenticate, nth: 1, ans: "err:13"},
 		{name: "auth1-dropped", key: protocol.SaslAuthenticate, nth: 1, ans: "drop"},
 		{name: "auth1-garbled", key: protocol.SaslAuthenticate, nth: 1, ans: "garble"},
 		{name: "auth2-error58", key: protocol.SaslAuthenticate, nth: 2, ans: "err:58"},
+		{name: "auth2-error-1", key: protocol.SaslAuthenticate, nth: 2, ans: "err:-1"},
 		{name: "auth2-dropped", key: protocol.SaslAuthenticate, nth: 2, ans: "drop"},
 		{name: "auth2-garbled", key: protocol.SaslAuthenticate, nth: 2, ans: "garble"},
 		{name: "auth2-cut", key: protocol.SaslAuthenticate, nth: 2, ans: "cut:10"},
@@ -155,7 +160,7 @@ func TestCheck(t *testing.T) {
 									authOK = authOK || a.Success
 								}
 								faulty := f.name != "none" && f.name != "inband-errors" && injected || f.mechs != nil || (f.raw != "" && hv == 0)
-								if f.name == "auth2-error58" || f.name == "auth2-dropped" || f.name == "auth2-garbled" || f.name == "auth2-cut" {
+								if strings.HasPrefix(f.name, "auth2-") {
 									faulty = injected // PLAIN has a single round: the fault never fires
 								}
 								if m == "PLAIN" && (f.ans == "garble" || f.inband) {
